@@ -14,8 +14,10 @@ CACHE = os.path.join(ROOT, ".cache")
 REPO = "/repo"
 HARNESS = os.path.join(CACHE, "target-harness", "release", "verif_harness")
 HARNESS_CHECKED = os.path.join(CACHE, "target-harness", "checked", "verif_harness")
+HARNESS_BOUNDS = os.path.join(CACHE, "target-harness", "bounds", "verif_harness")
 DRIVER = os.path.join(CACHE, "driver", "driver")
 SPECDRIVER = os.path.join(CACHE, "specdriver", "specdriver")
+SCHEDDRIVER = os.path.join(CACHE, "scheddriver", "scheddriver")
 ENGINE = os.path.join(CACHE, "target-bin", "release", "rustybait")
 NPROC = min(16, os.cpu_count() or 4)
 
